@@ -68,6 +68,7 @@ impl Harness {
         }
         drop(old);
         kv::set_heap_mode(false);
+        kv::disarm_fuses();
         self.arena = if self.arena_heap {
             Box::new(arena::ArenaMachine::<arena::HeapItem>::new())
         } else {
@@ -111,6 +112,13 @@ impl Harness {
             }
             "X" => {
                 let out = self.tree.exec_x(&ws[1..]);
+                for f in self.tree.take_failures() {
+                    self.failures.push(format!("case={} line={} op=`{}` {}", self.case, self.lineno, line, f));
+                }
+                out
+            }
+            "F" => {
+                let out = self.tree.exec_f(&ws[1..]);
                 for f in self.tree.take_failures() {
                     self.failures.push(format!("case={} line={} op=`{}` {}", self.case, self.lineno, line, f));
                 }
@@ -184,7 +192,7 @@ fn main() {
                             let l = if c % 5 == 0 { len * 3 } else { len };
                             arena::gen_case(&mut rng, l, &mut exec);
                         }
-                        "tree-ops" | "tree-iter" | "tree-range" | "tree-api" | "tree-damage" | "tree-helpers" => {
+                        "tree-ops" | "tree-iter" | "tree-range" | "tree-api" | "tree-damage" | "tree-helpers" | "tree-faults" | "tree-exh" => {
                             exec(format!("case {}", c));
                             let l = if c % 9 == 0 { len * 4 } else { len };
                             match suite.as_str() {
@@ -193,6 +201,8 @@ fn main() {
                                 "tree-range" => treegen::gen_range(&mut rng, l, &mut exec, c),
                                 "tree-damage" => treegen::gen_damage(&mut rng, l, &mut exec, c),
                                 "tree-helpers" => treegen::gen_helpers(&mut rng, l, &mut exec, c),
+                                "tree-faults" => treegen::gen_faults(&mut rng, l, &mut exec, c),
+                                "tree-exh" => treegen::gen_exh(&mut rng, len, &mut exec, c),
                                 _ => treegen::gen_api(&mut rng, l, &mut exec, c),
                             }
                         }
